@@ -17,7 +17,12 @@
 //!        CommitNode::decode) · exec (Bit Machine, Elements jets through C, shared environment) · prune ·
 //!        reinf (to_construct_node in a fresh context + finalize) · val (shared Value/Final reads) ·
 //!        pol (policy commit/satisfy/execute) · hum (human-readable forest and back) · drop (concurrent
-//!        drop of handles into one DAG) · build (one node per operation in a persistent context).
+//!        drop of handles into one DAG) · build (one node per operation in a persistent context) ·
+//!        loop (the same execution 20–59 times back to back).
+//!   Besides the mixed histories: "hammer" cases (all threads repeat exec/prune/decode/roots on one
+//!   shared program, or on the same plan with per-thread witness values) and a sweep over the jets
+//!   (`comp wit (comp jet unit)`, every thread with its own jet input, executed in loops by 4 or 16
+//!   threads at once; quick: a third of the jets chosen by the seed, thorough: all jets three times).
 //!   answer: `T0 [@d:]<result>… T1 … solo=ok` — per thread the canonical results (type-variable names
 //!        numbered by first occurrence, whole operations as digests), `@d` = distance of the slot's probe
 //!        name from the base; `solo=ok` iff every result equals the one of the sequential run.
@@ -27,7 +32,8 @@
 //!   of running the threads' operation lists one after the other on one thread
 //!   (`result-differs-under-threads`); no panic in a thread (`panic-thread`); all threads finish before
 //!   a generous watchdog (`deadlock-or-hang`); under the turnstile every operation draws as many names
-//!   as sequentially (`name-count-differs`); after all threads are done nothing of a dropped DAG is
+//!   as sequentially, free-running the counter advances by the sum of the sequential draws
+//!   (`name-count-differs`); after all threads are done nothing of a dropped DAG is
 //!   alive (`leak-after-drop`); `Final::two_two_n(n).tmr() == Tmr::TWO_TWO_N[n]` (`memo-table-wrong`).
 
 use crate::codec;
@@ -48,7 +54,7 @@ use std::sync::atomic::{AtomicBool, Ordering};
 use std::sync::{mpsc, Arc, Barrier, Condvar, Mutex, Weak};
 use std::time::Duration;
 
-pub const RULE: &str = "histories of 2, 4 or 16 threads × 3..40 operations per thread, drawn from 8 micro operations on the thread's own persistent inference contexts and 12 kinds of whole library operations (type-directed programs of ≤ 60 nodes with all node kinds, Elements jets incl. sha256/secp256k1/introspection fed by witnesses, ill-typed variants, 8 policies) on independent programs (one per thread, built by the thread) or on one program shared through Arc; schedules: uniformly random interleavings, round robin, thread blocks and bursts, enforced with a turnstile, plus free-running from a barrier; non-trivial = at least two threads perform operations; distinct by the whole line";
+pub const RULE: &str = "histories of 2, 4 or 16 threads × 3..40 operations per thread, drawn from 8 micro operations on the thread's own persistent inference contexts and 13 kinds of whole library operations (type-directed programs of ≤ 60 nodes with all node kinds, Elements jets incl. sha256/secp256k1/introspection fed by witnesses, ill-typed variants, 8 policies) on independent programs (one per thread, built by the thread) or on one program shared through Arc; schedules: uniformly random interleavings, round robin, thread blocks and bursts, enforced with a turnstile, plus free-running from a barrier; plus contention cases: all threads repeating operations on one shared program / on one plan with per-thread witnesses, and every Elements jet executed in loops by 4 or 16 threads with per-thread inputs; non-trivial = at least two threads perform operations; distinct by the whole line";
 
 // ------------------------------------------------------------------------------------------------
 // specification of a case (everything that is in the op line)
@@ -65,7 +71,7 @@ enum Micro {
     R(usize),
 }
 
-const WKINDS: [&str; 12] = ["inf", "roots", "enc", "dec", "exec", "prune", "reinf", "val", "pol", "hum", "drop", "build"];
+const WKINDS: [&str; 13] = ["inf", "roots", "enc", "dec", "exec", "prune", "reinf", "val", "pol", "hum", "drop", "build", "loop"];
 
 #[derive(Clone, Debug, PartialEq)]
 struct Whole {
@@ -579,6 +585,29 @@ fn jet_family(j: &Elements) -> &'static str {
     }
 }
 
+fn exec_out(r: &RedeemNode, input: Option<&Value>, env: &Env) -> OpOut {
+    match progs::run(r, input, env) {
+        Ok(run) => {
+            let mut s = match &run.outcome {
+                Outcome::Ok(v) => format!("ok {}", gen::value_compact_text(v)),
+                Outcome::Fail(k) => format!("fail {k}"),
+                Outcome::Other(e) => format!("other {e}"),
+            };
+            let mut tags = vec![];
+            for (j, i, o) in &run.rec.calls {
+                s.push_str(&format!(" J:{}:{}:{}", j, gen::bits_text(i), o.as_ref().map(|o| gen::bits_text(o)).unwrap_or_else(|| "fail".into())));
+                let t = jet_family(j);
+                if !tags.contains(&t) {
+                    tags.push(t);
+                }
+            }
+            s.push_str(&format!(" cells={} frames={} visited={}", run.max_cells, run.max_frames, run.rec.nodes_visited));
+            OpOut { text: s, tags }
+        }
+        Err(e) => out(format!("limit {e}")),
+    }
+}
+
 fn own_redeem(w: &World, l: &mut Local, k: usize) -> Option<Arc<RedeemNode>> {
     if let Some(r) = l.own.get(&k) {
         return r.clone();
@@ -616,7 +645,7 @@ fn run_whole<'b>(w: &World, l: &mut Local, bc: &mut BuildCtx<'b>, op: &Whole) ->
     let p = &w.progs[op.prog];
     let program = p.spec.flavour == 'p';
     let red: Option<Arc<RedeemNode>> = match op.kind {
-        "roots" | "enc" | "dec" | "exec" | "prune" | "reinf" => {
+        "roots" | "enc" | "dec" | "exec" | "prune" | "reinf" | "loop" => {
             if op.shared {
                 p.redeem.clone()
             } else {
@@ -682,26 +711,22 @@ fn run_whole<'b>(w: &World, l: &mut Local, bc: &mut BuildCtx<'b>, op: &Whole) ->
             }
         }
         "exec" => match red {
-            Some(r) => match progs::run(&r, p.input.as_ref(), &l.env) {
-                Ok(run) => {
-                    let mut s = match &run.outcome {
-                        Outcome::Ok(v) => format!("ok {}", gen::value_compact_text(v)),
-                        Outcome::Fail(k) => format!("fail {k}"),
-                        Outcome::Other(e) => format!("other {e}"),
-                    };
-                    let mut tags = vec![];
-                    for (j, i, o) in &run.rec.calls {
-                        s.push_str(&format!(" J:{}:{}:{}", j, gen::bits_text(i), o.as_ref().map(|o| gen::bits_text(o)).unwrap_or_else(|| "fail".into())));
-                        let t = jet_family(j);
-                        if !tags.contains(&t) {
-                            tags.push(t);
-                        }
+            Some(r) => exec_out(&r, p.input.as_ref(), &l.env),
+            None => out("n/a".into()),
+        },
+        "loop" => match red {
+            // the same execution many times back to back (contention inside the jets' C code)
+            Some(r) => {
+                let reps = 20 + op.arg % 40;
+                let first = exec_out(&r, p.input.as_ref(), &l.env);
+                let mut same = true;
+                for _ in 1..reps {
+                    if exec_out(&r, p.input.as_ref(), &l.env).text != first.text {
+                        same = false;
                     }
-                    s.push_str(&format!(" cells={} frames={} visited={}", run.max_cells, run.max_frames, run.rec.nodes_visited));
-                    OpOut { text: s, tags }
                 }
-                Err(e) => out(format!("limit {e}")),
-            },
+                OpOut { text: format!("{} reps={reps} same={same}", first.text), tags: first.tags }
+            }
             None => out("n/a".into()),
         },
         "prune" => match red {
@@ -1268,6 +1293,17 @@ fn run_case(ctx: &mut Ctx, spec: &CaseSpec, flavour: &str, expect: Option<&[(u64
         }
         ctx.count("oracle:name-counts-compared");
     }
+    if spec.sched.is_none() {
+        // free-running: all threads together drew exactly the names of the sequential runs (a lost
+        // update of the counter, or an operation that draws more or fewer names under contention)
+        let total = end.wrapping_sub(base).wrapping_sub(1);
+        let expect: u64 = seq.per.iter().flatten().map(|x| x.0).sum();
+        if total != expect {
+            all_same = false;
+            ctx.fail("name-count-differs", &line, &format!("free-running on {} threads the name counter advanced by {total}, the sequential runs drew {expect} names", spec.n));
+        }
+        ctx.count("oracle:name-total-compared");
+    }
     outp.push(if all_same { "solo=ok".into() } else { "solo=DIFF".into() });
     ctx.op(&line, &outp.join(" "));
     ctx.count(&format!("reach:{mode}:{}", spec.n));
@@ -1445,6 +1481,62 @@ fn gen_case(r: &mut Rng, pools: &[Vec<Elements>], n: usize, shared: bool, turnst
     CaseSpec { n, sched, progs, build, ops }
 }
 
+/// contention on one spot: every thread repeats the same few operations on ONE shared program whose
+/// jets all come from one family (the C code of that family is entered by all threads at once)
+fn gen_hammer(r: &mut Rng, pool: &[Elements], n: usize, reps: usize, same_witnesses: bool) -> CaseSpec {
+    let pools = vec![pool.to_vec()];
+    let mut prog = gen_prog_spec(r, &pools, 40);
+    for _ in 0..50 {
+        if prog.plan.nodes.iter().any(|x| matches!(x, PNode::Jet(_))) && prog.flavour == 'p' {
+            break;
+        }
+        prog = gen_prog_spec(r, &pools, 40);
+    }
+    // one program for all threads, or the same plan with other witness values (= other jet inputs)
+    // for every thread: only then does a buffer shared inside a jet receive different data
+    let mut progs = vec![prog.clone()];
+    if !same_witnesses {
+        for _ in 1..n {
+            let mut q = prog.clone();
+            if let Ok(Ok((_, wits))) = catch(|| gen::redeem_of_plan(&q.plan, r, q.flavour == 'p')) {
+                let mut ws: Vec<(usize, Vec<bool>)> = wits.iter().map(|(i, v)| (*i, v.iter_compact().collect())).collect();
+                ws.sort();
+                q.wits = ws;
+            }
+            progs.push(q);
+        }
+    }
+    let kinds = ["exec", "exec", "exec", "prune", "dec", "roots", "reinf"];
+    let mut ops = vec![];
+    for t in 0..n {
+        for i in 0..reps {
+            let kind = kinds[(i + t) % kinds.len()];
+            ops.push(OpSpec { tid: t, ctx: 2, kind: OpKind::Whole(Whole { kind, prog: if same_witnesses { 0 } else { t }, shared: true, arg: i }) });
+        }
+    }
+    CaseSpec { n, sched: None, progs, build: vec![], ops }
+}
+
+/// one jet under contention: `comp wit (comp jet unit)`, every thread with its own witness value
+/// (= its own jet input), executed in loops by all threads at once
+fn gen_jet_hammer(r: &mut Rng, j: Elements, n: usize) -> Option<CaseSpec> {
+    let plan = Plan { nodes: vec![PNode::Witness, PNode::Jet(j), PNode::Unit, PNode::Comp(1, 2), PNode::Comp(0, 3)] };
+    let mut progs = vec![];
+    for _ in 0..n {
+        let (_, wits) = catch(|| gen::redeem_of_plan(&plan, r, true)).ok()?.ok()?;
+        let mut ws: Vec<(usize, Vec<bool>)> = wits.iter().map(|(i, v)| (*i, v.iter_compact().collect())).collect();
+        ws.sort();
+        progs.push(ProgSpec { plan: plan.clone(), flavour: 'p', wits: ws, input: None });
+    }
+    let mut ops = vec![];
+    for t in 0..n {
+        for i in 0..4 {
+            ops.push(OpSpec { tid: t, ctx: 2, kind: OpKind::Whole(Whole { kind: if i == 3 { "prune" } else { "loop" }, prog: t, shared: true, arg: 10 + i }) });
+        }
+    }
+    Some(CaseSpec { n, sched: None, progs, build: vec![], ops })
+}
+
 pub fn run(ctx: &mut Ctx) {
     let pools = jet_pools();
     // the memo table, once on the main thread, against the static table
@@ -1469,6 +1561,39 @@ pub fn run(ctx: &mut Ctx) {
                     alive = run_case(ctx, &spec, if shared { "shared" } else { "indep" }, None);
                     let _ = round;
                 }
+            }
+        }
+    }
+    let hammer = ctx.scale(80, 600);
+    for h in 0..hammer {
+        if !alive {
+            break;
+        }
+        let n = if h % 2 == 0 { 16 } else { 4 };
+        let mut r = ctx.rng.fork();
+        let same = h % 4 < 2;
+        let spec = gen_hammer(&mut r, &pools[(h % 3) as usize], n, if ctx.quick() { 30 } else { 60 }, same);
+        alive = run_case(ctx, &spec, if same { "hammer-shared" } else { "hammer-indep" }, None);
+    }
+    // every jet (quick: a third of them, rotating with the seed) under contention
+    let all = Elements::ALL;
+    let passes = ctx.scale(1, 3);
+    for pass in 0..passes {
+        for (k, j) in all.iter().enumerate() {
+            if !alive {
+                break;
+            }
+            if ctx.quick() && (k as u64 + ctx.seed) % 3 != 0 {
+                continue;
+            }
+            if j.source_ty().to_final().bit_width() > 4096 {
+                continue;
+            }
+            let mut r = ctx.rng.fork();
+            let n = if (k + pass as usize) % 2 == 0 { 16 } else { 4 };
+            if let Some(spec) = gen_jet_hammer(&mut r, *j, n) {
+                alive = run_case(ctx, &spec, "jet-hammer", None);
+                ctx.count(&format!("jets-hammered:{}", jet_family(j)));
             }
         }
     }
@@ -1525,7 +1650,7 @@ pub fn replay(ctx: &mut Ctx, case: &str) {
         Some((spec, expect)) => {
             let flavour = if spec.ops.iter().any(|o| matches!(&o.kind, OpKind::Whole(w) if w.shared)) { "shared" } else { "indep" };
             // a failure that depends on timing may need several attempts when free-running
-            let tries = if spec.sched.is_some() { 1 } else { 20 };
+            let tries = if spec.sched.is_some() { 1 } else { 300 };
             for _ in 0..tries {
                 if !run_case(ctx, &spec, flavour, Some(&expect)) || ctx.n_fail > 0 {
                     break;
